@@ -11,11 +11,12 @@ import z3
 ID = "C12"
 FUNCTIONS = [("sleap_nn.inference.topdown", "CentroidCrop.forward"), ("sleap_nn.inference.topdown", "CentroidCrop._generate_crops"), ("sleap_nn.inference.single_instance", "SingleInstanceInferenceModel.forward"),
              ("sleap_nn.inference.bottomup", "BottomUpInferenceModel._generate_cms_peaks"), ("sleap_nn.inference.peak_finding", "find_local_peaks"), ("sleap_nn.inference.peak_finding", "find_local_peaks_rough"),
-             ("sleap_nn.inference.peak_finding", "find_global_peaks"), ("sleap_nn.inference.predictors", "Predictor._predict_generator")]
+             ("sleap_nn.inference.peak_finding", "find_global_peaks"), ("sleap_nn.inference.predictors", "Predictor._predict_generator"), ("sleap_nn.inference.topdown", "FindInstancePeaksGroundTruth.forward")]
 EXPLANATION = ("Two frames A and B with arbitrary symbolic confidence maps (not ideal maps), distinct symbolic frame/video indices and symbolic eff_scales go through the real "
                "inference modules as [A,B], [B,A], [A] and [B] within one symbolic path (the later runs add no forks: their peak patterns are implied). z3 shows that each "
                "frame's centroids / peaks / values are the same in all four runs, that every crop record carries the indices of the frame its centroid came from, that an "
                "all-below-threshold frame yields nothing and leaves its batch-mate unchanged, and that with max_instances = m the kept centroids are a top-m set by value. "
+               "FindInstancePeaksGroundTruth (labelled poses standing in for the centered-instance model) with symbolic centroids and poses: per-frame result independent of batch-mates and order. "
                "_predict_generator is run over a fake reader with symbolic indices: records carry their own frame's indices/size/content/size-matching scale for every batch size (frames of different sizes).")
 ASSUMPTIONS = ["maps are 1x3 / 1x4 cells per frame (so that a frame can hold 0, 1 or 2 peaks); values unconstrained reals", "refinement None", "crop_and_resize geometry-only stub",
                "the PAF scorer is not part of this check (grouping: C08)", "exact real arithmetic"]
@@ -41,11 +42,15 @@ def configs(tier, seed):
     out.append(dict(kind="single", G=2, N=1, refinement="integral"))
     for B in (1, 2, 3):
         out.append(dict(kind="generator", batch=B, frames=3))
+    # top-down with ground-truth instance peaks (centroid-only models): more detected centroids than labelled-instance slots are possible
+    out.append(dict(kind="gtpeaks", max_inst=1, n_cent=2, nodes=1))
+    if tier == "thorough":
+        out.append(dict(kind="gtpeaks", max_inst=2, n_cent=2, nodes=1))
     return out
 
 
 def run_config(cfg):
-    return {"centroid": _run_centroid, "bottomup": _run_bottomup, "single": _run_single, "generator": _run_generator}[cfg["kind"]](cfg)
+    return {"centroid": _run_centroid, "bottomup": _run_bottomup, "single": _run_single, "generator": _run_generator, "gtpeaks": _run_gtpeaks}[cfg["kind"]](cfg)
 
 
 def _install():
@@ -338,6 +343,80 @@ def _run_single(cfg):
     return rep.finish(extra={"ops": sorted(T.OPS_USED)})
 
 
+def _run_gtpeaks(cfg):
+    """FindInstancePeaksGroundTruth (top-down inference with labelled poses standing in for the centered-instance model): the peaks reported for a
+    frame are the same whether it is alone or shares the batch with another frame, in either order -- for ANY centroids (possibly missing, possibly
+    more than the labelled-instance slots) and any labelled poses (possibly missing)."""
+    import torch
+    from symx import torchfe as T, xf
+    from symx.xf import XF
+    from symx.explorer import Explorer
+    from symx.harness import Report, discharge
+    pf, td, bu, si = _install()
+    rep = Report(cfg)
+    MI, NC, N = cfg["max_inst"], cfg["n_cent"], cfg["nodes"]
+    ex = Explorer([], timeout_ms=60000, max_paths=20000)
+
+    def frame(f):
+        inst = [XF(z3.Real(f"i{f}_{a}_{n}_{c}"), z3.Bool(f"i{f}_{a}#nan")) for a in range(MI) for n in range(N) for c in "xy"]
+        cent = [XF(z3.Real(f"c{f}_{k}_{c}"), z3.Bool(f"c{f}_{k}#nan")) for k in range(NC) for c in "xy"]
+        return inst, cent
+
+    def run(order, data):
+        inst = T.from_values([v for f in order for v in data[f][0]], (len(order), 1, MI, N, 2), torch.float32)
+        cent = T.from_values([v for f in order for v in data[f][1]], (len(order), 1, NC, 2), torch.float32)
+        out = td.FindInstancePeaksGroundTruth()({"instances": inst, "centroids": cent, "eff_scale": torch.ones(len(order))})
+        pk, pv = out["pred_instance_peaks"], out["pred_peak_values"]
+        pkv = pk.values() if isinstance(pk, T.SymTensor) else [XF.of(v) for v in pk.reshape(-1).tolist()]
+        pvv = pv.values() if isinstance(pv, T.SymTensor) else [XF.of(v) for v in pv.reshape(-1).tolist()]
+        per, perv = len(pkv) // len(order), len(pvv) // len(order)
+        return {f: (pkv[b * per:(b + 1) * per], pvv[b * perv:(b + 1) * perv]) for b, f in enumerate(order)}
+
+    def path():
+        with T.SymMode():
+            data = {f: frame(f) for f in "AB"}
+            try:
+                return {o: run(o, data) for o in ("AB", "BA", "A", "B")}
+            except Exception as e:  # noqa
+                if isinstance(e, xf.EngineGap):
+                    raise
+                return ("EXC", e)
+
+    def extract(model, env):
+        def pt(name, flag):
+            return ["nan", "nan"] if env[flag] else [float(env[name + "_x"]), float(env[name + "_y"])]
+        return {"instances": {f: [[pt(f"i{f}_{a}_{n}", f"i{f}_{a}#nan") for n in range(N)] for a in range(MI)] for f in "AB"},
+                "centroids": {f: [pt(f"c{f}_{k}", f"c{f}_{k}#nan") for k in range(NC)] for f in "AB"}}
+    from symx.explorer import model_env, DefaultEnv
+    for outs in ex.run(path):
+        rep.paths += 1
+        rep.nontrivial_paths += 1
+        if isinstance(outs, tuple):
+            mo = ex.full_model()
+            rep.record("GT0-no-exception", "sat")
+            rep.violation("GT0-no-exception", f"gtpeaks:exception:{type(outs[1]).__name__}", f"FindInstancePeaksGroundTruth raised {type(outs[1]).__name__}: {str(outs[1])[:120]}", extract(mo, DefaultEnv(model_env(mo))))
+            continue
+        rep.record("GT0-no-exception", "unsat")
+        for f in "AB":
+            ref = outs[f][f]
+            for o in ("AB", "BA"):
+                got = outs[o][f]
+                goal = _eq_lists(list(got[0]) + list(got[1]), list(ref[0]) + list(ref[1]), xf)
+                if goal is None:
+                    mo = ex.full_model()
+                    rep.record("GT1-ground-truth-peaks-independent-of-batch", "sat")
+                    rep.violation("GT1-ground-truth-peaks-independent-of-batch", "gtpeaks:batch-dependence", f"frame {f}: output size in batch {o} differs from the frame alone", extract(mo, DefaultEnv(model_env(mo))))
+                    continue
+                discharge(ex, rep, "GT1-ground-truth-peaks-independent-of-batch", goal,
+                          on_sat=lambda mo, env, f=f, o=o: ("gtpeaks:batch-dependence", f"frame {f}: ground-truth peaks in batch {o} differ from the frame alone", extract(mo, env)))
+        rep.sample({"path_condition": ex.path_summary(2, 60)})
+    for w in REQUIRED_WITNESSES:
+        rep.witness(w, True)
+    if ex.truncated:
+        rep.inconclusive_item("gtpeaks", "path budget exhausted")
+    return rep.finish(extra={"ops": sorted(T.OPS_USED)})
+
+
 def _run_generator(cfg):
     """_predict_generator: every record batch carries the frame/video index, original size and image of its own frames, in order, for every batch size."""
     import torch, queue
@@ -485,6 +564,27 @@ def replay(cfg, inputs, obligation):
             for o in ("AB", "BA"):
                 a, b = outs[o][f], outs[f][f]
                 if not (torch.allclose(a[0], b[0], equal_nan=True, atol=1e-5) and torch.allclose(a[1], b[1], atol=1e-6)):
+                    return True, f"frame {f}: batch {o} gives {a[0].tolist()}, alone {b[0].tolist()}"
+        return False, "agree"
+    if kind == "gtpeaks":
+        from symx.harness import unjson_float
+        MI, NC, N = cfg["max_inst"], cfg["n_cent"], cfg["nodes"]
+
+        def run(order):
+            inst = torch.tensor([unjson_float(inputs["instances"][f]) for f in order], dtype=torch.float32).reshape(len(order), 1, MI, N, 2)
+            cent = torch.tensor([unjson_float(inputs["centroids"][f]) for f in order], dtype=torch.float32).reshape(len(order), 1, NC, 2)
+            out = td.FindInstancePeaksGroundTruth()({"instances": inst, "centroids": cent, "eff_scale": torch.ones(len(order))})
+            return {f: (out["pred_instance_peaks"][b], out["pred_peak_values"][b * (out["pred_peak_values"].shape[0] // len(order)):(b + 1) * (out["pred_peak_values"].shape[0] // len(order))]) for b, f in enumerate(order)}
+        try:
+            outs = {o: run(o) for o in ("AB", "BA", "A", "B")}
+        except Exception as e:  # noqa
+            return obligation.startswith("GT0"), f"raised {type(e).__name__}: {e}"
+        if obligation.startswith("GT0"):
+            return False, "no exception"
+        for f in "AB":
+            for o in ("AB", "BA"):
+                a, b = outs[o][f], outs[f][f]
+                if a[0].shape != b[0].shape or not (torch.allclose(a[0], b[0], equal_nan=True, atol=1e-5) and torch.allclose(a[1], b[1], equal_nan=True, atol=1e-6)):
                     return True, f"frame {f}: batch {o} gives {a[0].tolist()}, alone {b[0].tolist()}"
         return False, "agree"
     if kind == "generator":
